@@ -13,7 +13,13 @@ theorem folds_iff (opts : Options) (hs : HeaderList) :
     foldsBody opts hs = true ↔
       opts.fold = true ∧ ∃ v, firstHeader hs CONTENT_TYPE = some v ∧
         latin1ToString (trimAscii ((splitOn 0x3B v).headD [])) = FORM_URLENCODED := by
-  sorry
+  unfold foldsBody contentTypeCharset
+  cases hfh : firstHeader hs CONTENT_TYPE with
+  | none => simp
+  | some v =>
+    cases hsp : splitOn 0x3B v with
+    | nil => exact absurd hsp (c12_splitOn_ne_nil _ _)
+    | cons ct rest => simp [hsp]
 
 /-- Folding: the parameters that are authenticated are the URL parameters merged with the body
 parameters, the payload hash is that of the empty body, and the body handed on is empty. -/
@@ -23,14 +29,49 @@ theorem fold_shape (H : Bytes → Bytes) (opts : Options) (other : OtherCharset)
       decodeFormBody ((contentTypeCharset req.headers).bind (·.2)) other req.body = .ok text ∧
       parseQuery text = .ok bp ∧ fp.creq.params = mergeParams up bp ∧
       fp.creq.bodySha = hexLower (H []) ∧ fp.body = [] := by
-  sorry
+  unfold fromRequestParts at h
+  split at h
+  · cases h
+  · cases h
+  · split at h
+    · cases h
+    · cases h
+    · rename_i up hup
+      simp only [hf, if_true] at h
+      split at h
+      · cases h
+      · cases h
+      · rename_i text htext
+        split at h
+        · cases h
+        · cases h
+        · rename_i bp hbp
+          split at h
+          · split at h
+            · cases h
+            · simp only [Outcome.ok.injEq] at h
+              subst h
+              exact ⟨up, text, bp, hup, htext, hbp, rfl, rfl, rfl⟩
+          · split at h
+            · cases h
+            · simp only [Outcome.ok.injEq] at h
+              subst h
+              exact ⟨up, text, bp, hup, htext, hbp, rfl, rfl, rfl⟩
 
 /-- Body parameters are treated exactly as if they had been appended to the URL query: the canonical
 query of the merged parameters is the canonical query of `url & body`. -/
 theorem fold_as_if_appended (q text : Bytes) (up bp : QueryMap)
     (hu : parseQuery q = .ok up) (hb : parseQuery text = .ok bp) :
     (parseQuery (q ++ [0x26] ++ text)).map canonQuery = .ok (canonQuery (mergeParams up bp)) := by
-  sorry
+  obtain ⟨A, hA, rfl⟩ := c12_parseQuery_ok q up hu
+  obtain ⟨B, hB, rfl⟩ := c12_parseQuery_ok text bp hb
+  rw [parseQuery_eq_spec', c12_refQueryPairs_append, hA, hB]
+  simp only [Option.bind_some, Option.map_some, optToOutcome, Outcome.map_ok, Outcome.ok.injEq]
+  apply c12_canonQuery_of_flatten_perm
+  refine (groupPairs_perm' _).trans ?_
+  refine List.Perm.trans ?_ (c12_flattenMap_mergeParams_perm _ _).symm
+  rw [List.map_append]
+  exact ((groupPairs_perm' _).symm).append ((groupPairs_perm' _).symm)
 
 /-- No URL or body parameter is dropped or invented, repeated names included: the merged pairs are
 a permutation of the URL pairs followed by the body pairs, and every name keeps its values in the
@@ -39,7 +80,9 @@ theorem fold_multiset (q text : Bytes) (up bp : QueryMap)
     (hu : parseQuery q = .ok up) (hb : parseQuery text = .ok bp) :
     (flattenMap (mergeParams up bp)).Perm (flattenMap up ++ flattenMap bp) ∧
     ∀ k, (assocGet (mergeParams up bp) k).getD [] = (assocGet up k).getD [] ++ (assocGet bp k).getD [] := by
-  sorry
+  have _ := hu
+  refine ⟨c12_flattenMap_mergeParams_perm up bp, fun k => ?_⟩
+  exact foldl_assocExtend_get bp up k (c12_parseQuery_nodup text bp hb)
 
 /-- Without folding (option off, or any other content type) the body contributes nothing to the
 query and is hashed verbatim and handed on untouched. -/
@@ -47,7 +90,17 @@ theorem nofold_shape (H : Bytes → Bytes) (opts : Options) (other : OtherCharse
     (h : fromRequestParts H opts other req = .ok fp) (hf : foldsBody opts req.headers = false) :
     parseQuery (req.query.getD []) = .ok fp.creq.params ∧ fp.creq.bodySha = hexLower (H req.body) ∧
     fp.body = req.body ∧ fp.rebuiltUri = none := by
-  sorry
+  unfold fromRequestParts at h
+  split at h
+  · cases h
+  · cases h
+  · split at h
+    · cases h
+    · cases h
+    · rename_i up hup
+      simp only [hf, Bool.false_eq_true, if_false, Outcome.ok.injEq] at h
+      subst h
+      exact ⟨hup, rfl, rfl, rfl⟩
 
 /-- Hence every body byte is covered by the signature: two unfolded requests with different bodies
 have different payload hashes unless `H` collides. -/
@@ -55,7 +108,10 @@ theorem nofold_body_covered (H : Bytes → Bytes) (opts : Options) (other : Othe
     (fp fp' : FromParts) (h : fromRequestParts H opts other req = .ok fp) (h' : fromRequestParts H opts other req' = .ok fp')
     (hf : foldsBody opts req.headers = false) (hf' : foldsBody opts req'.headers = false)
     (hs : fp.creq.bodySha = fp'.creq.bodySha) : H req.body = H req'.body := by
-  sorry
+  obtain ⟨_, h1, _, _⟩ := nofold_shape H opts other req fp h hf
+  obtain ⟨_, h2, _, _⟩ := nofold_shape H opts other req' fp' h' hf'
+  rw [h1, h2] at hs
+  exact c12_hexLower_inj _ _ hs
 
 /-- An unknown charset label, or a body that does not decode under the declared (or default UTF-8)
 charset, is refused as an invalid body encoding (400). -/
@@ -64,7 +120,9 @@ theorem bad_body_encoding (H : Bytes → Bytes) (opts : Options) (other : OtherC
     (hf : foldsBody opts req.headers = true)
     (hbad : decodeFormBody ((contentTypeCharset req.headers).bind (·.2)) other req.body = .err .InvalidBodyEncoding) :
     fromRequestParts H opts other req = .err .InvalidBodyEncoding ∧ ErrKind.InvalidBodyEncoding.status = 400 := by
-  sorry
+  refine ⟨?_, rfl⟩
+  unfold fromRequestParts
+  simp only [hp, hq, hf, if_true, hbad]
 
 theorem decodeFormBody_cases (charset : Option Bytes) (other : OtherCharset) (body : Bytes) :
     -- UTF-8 (declared by one of its labels, or unspecified): accepted iff well-formed UTF-8, unchanged
@@ -75,12 +133,19 @@ theorem decodeFormBody_cases (charset : Option Bytes) (other : OtherCharset) (bo
         decodeFormBody charset other body = .err .InvalidBodyEncoding) ∧
     (∀ cs, charset = some cs → isUtf8Label cs = false → other = .undecodable →
         decodeFormBody charset other body = .err .InvalidBodyEncoding) := by
-  sorry
+  refine ⟨?_, ?_, ?_⟩
+  · rintro (rfl | ⟨cs, rfl, hcs⟩)
+    · rfl
+    · simp [decodeFormBody, hcs]
+  · rintro cs rfl hcs rfl
+    simp [decodeFormBody, hcs]
+  · rintro cs rfl hcs rfl
+    simp [decodeFormBody, hcs]
 
 /-- The three labels that denote UTF-8, in any letter case and with surrounding label whitespace. -/
 theorem utf8_labels : isUtf8Label b!"utf-8" = true ∧ isUtf8Label b!"UTF8" = true ∧
     isUtf8Label b!" Unicode-1-1-UTF-8\t" = true ∧ isUtf8Label b!"latin1" = false ∧ isUtf8Label b!"\"utf-8\"" = false := by
-  sorry
+  decide
 
 example : foldsBody { s3 := false, fold := true } [(b!"content-type", b!" application/x-www-form-urlencoded ; charset=utf-8")] = true := by
   decide
